@@ -80,6 +80,20 @@ fn render(lib: &str, s: Style) -> Vec<u8> {
             w.reset().unwrap();
             w.into_inner()
         }
+        // termcolor is used statefully (set_color; write; set_color; write; reset): the converted spec must also mean
+        // the same style when the writer has just been showing a different, effect-laden one
+        "termcolor_after" => {
+            use termcolor::WriteColor;
+            let mut w = termcolor::Ansi::new(Vec::new());
+            let mut prior = termcolor::ColorSpec::new();
+            prior.set_bold(true).set_dimmed(true).set_italic(true).set_underline(true).set_fg(Some(termcolor::Color::Red)).set_bg(Some(termcolor::Color::Blue));
+            w.set_color(&prior).unwrap();
+            w.write_all(b"Y").unwrap();
+            w.set_color(&anstyle_termcolor::to_termcolor_spec(s)).unwrap();
+            w.write_all(b"X").unwrap();
+            w.reset().unwrap();
+            w.into_inner()
+        }
         "yansi" => {
             use yansi::Paint;
             format!("{}", "X".paint(anstyle_yansi::to_yansi_style(s))).into_bytes()
@@ -120,6 +134,11 @@ fn record(seed: u64, thorough: bool, shards: usize, prefix: &str) -> Value {
             let ev = json!({"lib":lib,"st":style_json(&s),"bytes":render(lib, s)});
             writeln!(files[n % shards], "{ev}").unwrap();
             n += 1;
+            if lib == "termcolor" {
+                let ev = json!({"lib":lib,"after_prior_style":true,"st":style_json(&s),"bytes":render("termcolor_after", s)});
+                writeln!(files[n % shards], "{ev}").unwrap();
+                n += 1;
+            }
         };
         for c in &cols {
             emit(Style::new().fg_color(Some(*c)));
